@@ -187,6 +187,15 @@ def run(ctx, progs):
                     cnt = a[2]
                     ok = a[1] == ('const', 0) and cnt[0] == 'bin' and cnt[1] == 'Div' and match(F(P(1), "size"), cnt[2], {}) and is_call(unref(cnt[3]), "size_of")
                 ctx.ob("R4.2.element_count", b.key, ok, b.where(), "element route: get_array_ref(0, self.size / size_of::<T>()) — bytes / (bytes per element) = elements")
+                if nm == "copy_to":
+                    # what the element route reports is the array's own count of ELEMENTS, unmodified
+                    arr = [c for c in b.calls() if canon(c.target or "").endswith("VolatileArrayRef::copy_to")]
+                    okr = False
+                    if len(arr) == 1:
+                        res = deep_strip(b.call_term(arr[0].t, arr[0].pos, 0))
+                        okr = any(unref(t2) == res for _p, t2 in b.return_terms())
+                        okr = okr and not any(res in list(subterms(unref(t2))) and unref(t2) != res for _p, t2 in b.return_terms())
+                    ctx.ob("R4.2.element_route_return", b.key, okr, b.where(), "slow path returns VolatileArrayRef::copy_to(..)'s element count as is (not scaled to bytes)")
             for b in prog.find(adt=ARR, name=nm):
                 tk = [c for c in b.calls() if canon(c.target or "").endswith("Iterator::take")]
                 ok = False
